@@ -91,6 +91,58 @@ class Ctx:
             depth += 1
         return e, at
 
+    def roots(self, e, at, roles, region=None):
+        """Role names that expression e (evaluated at node at) is built from, through local temporaries."""
+        found = set()
+        todo = [(e, at)]
+        seen = set()
+        while todo:
+            x, a = todo.pop()
+            for nm in _data_names(x):
+                if nm in roles:
+                    found.add(nm)
+                    continue
+                for d in self.rd.defs(a, nm):
+                    if d in seen or (region is not None and d not in region):
+                        continue
+                    seen.add(d)
+                    if d.kind == 'stmt' and isinstance(d.ast, ast.Assign):
+                        todo.append((d.ast.value, d))
+                    elif d.kind == 'stmt' and isinstance(d.ast, ast.AugAssign):
+                        todo.append((d.ast.value, d))
+                        todo.append((d.ast.target, d))
+        return found
+
+    def slot_of(self, name, at, exclude=()):
+        """(source key, position) when *name* is element <position> of a tuple: bound by tuple-unpacking
+        (`a, b = SRC`, `for a, b in ITER`) or by constant indexing (`x = SRC[k]`, `g = SRC; x = g[k]`)."""
+        ds = self.rd.defs(at, name) - set(exclude)
+        if len(ds) != 1:
+            return None
+        d = next(iter(ds))
+
+        def src_key(expr, node):
+            return ('src', _dump(expr), tuple(sorted((nm, tuple(sorted(x.id for x in self.rd.defs(node, nm))))
+                                                     for nm in astx.names(expr))))
+        if d.kind == 'iter' and isinstance(d.ast.target, ast.Tuple):
+            for i, t in enumerate(d.ast.target.elts):
+                if isinstance(t, ast.Name) and t.id == name:
+                    return ('iter', d.id), i
+            return None
+        if d.kind == 'stmt' and isinstance(d.ast, ast.Assign) and len(d.ast.targets) == 1:
+            t, v = d.ast.targets[0], d.ast.value
+            if isinstance(t, ast.Tuple):
+                for i, x in enumerate(t.elts):
+                    if isinstance(x, ast.Name) and x.id == name:
+                        v2, at2 = self.resolve(v, d)
+                        return src_key(v2, at2), i
+                return None
+            if isinstance(t, ast.Name) and isinstance(v, ast.Subscript) and isinstance(v.slice, ast.Constant) and \
+                    isinstance(v.slice.value, int):
+                v2, at2 = self.resolve(v.value, d)
+                return src_key(v2, at2), v.slice.value
+        return None
+
     def vec(self, e, at):
         """'_inputs' / '_outputs' / '_residuals' if *e* denotes that vector of the system, else None."""
         e, at = self.resolve(e, at)
@@ -183,6 +235,38 @@ def _lt(e):
             return e.left, e.comparators[0], isinstance(op, ast.Lt)
         if isinstance(op, (ast.Gt, ast.GtE)):
             return e.comparators[0], e.left, isinstance(op, ast.Gt)
+    return None
+
+
+def _data_names(e):
+    """Names whose *value* flows into e (tests of conditional expressions only select, they do not flow)."""
+    out = set()
+    todo = [e]
+    while todo:
+        x = todo.pop()
+        if isinstance(x, ast.Name):
+            out.add(x.id)
+        elif isinstance(x, ast.IfExp):
+            todo += [x.body, x.orelse]
+        elif isinstance(x, (ast.Lambda, ast.FunctionDef)):
+            continue
+        else:
+            todo += [c for c in ast.iter_child_nodes(x)]
+    return out
+
+
+def _aug(st, name):
+    """(op type, operand) if statement st is `name op= e`, `name = name op e` or (commutative) `name = e op name`."""
+    if isinstance(st, ast.AugAssign) and isinstance(st.target, ast.Name) and st.target.id == name:
+        return type(st.op), st.value
+    if isinstance(st, ast.Assign) and len(st.targets) == 1 and isinstance(st.targets[0], ast.Name) and \
+            st.targets[0].id == name and isinstance(st.value, ast.BinOp):
+        b = st.value
+        if isinstance(b.left, ast.Name) and b.left.id == name and name not in astx.names(b.right):
+            return type(b.op), b.right
+        if isinstance(b.right, ast.Name) and b.right.id == name and isinstance(b.op, (ast.Add, ast.Mult)) and \
+                name not in astx.names(b.left):
+            return type(b.op), b.left
     return None
 
 
@@ -1889,21 +1973,38 @@ def step_calc(repo, out):
 
 
 # =========================================================================== C12.fd-accum
-def _nz_polarity(e, base):
-    """+1 if truth of e means `base` is nonzero, -1 if it means zero, 0 if not recognised."""
+def _nz_polarity(e, base, cx=None, at=None, depth=0):
+    """+1 if truth of e means `base` is nonzero, -1 if it means zero, 0 if not recognised.
+
+    Local flags / temporaries are followed through all their reaching definitions (which must agree).
+    """
+    if depth > 6:
+        return 0
     if isinstance(e, ast.UnaryOp) and isinstance(e.op, ast.Not):
-        return -_nz_polarity(e.operand, base)
+        return -_nz_polarity(e.operand, base, cx, at, depth + 1)
     if isinstance(e, ast.Call) and astx.callee_attr(e) in ('any', 'all', 'count_nonzero', 'bool') and len(e.args) == 1:
-        return _nz_polarity(e.args[0], base)
+        return _nz_polarity(e.args[0], base, cx, at, depth + 1)
     if isinstance(e, ast.Name) and e.id == base:
         return 1
     if isinstance(e, ast.Subscript) and isinstance(e.value, ast.Name) and e.value.id == base:
         return 1
+    if isinstance(e, ast.Subscript) and isinstance(e.value, ast.Name) and cx is not None:
+        return _nz_polarity(e.value, base, cx, at, depth + 1)
+    if isinstance(e, ast.Name) and cx is not None and at is not None:
+        ds = cx.rd.defs(at, e.id)
+        pols = set()
+        for d in ds:
+            if d.kind == 'stmt' and isinstance(d.ast, ast.Assign) and len(d.ast.targets) == 1 and \
+                    astx.path(d.ast.targets[0]) == e.id:
+                pols.add(_nz_polarity(d.ast.value, base, cx, d, depth + 1))
+            else:
+                pols.add(0)
+        return pols.pop() if len(pols) == 1 else 0
     if isinstance(e, ast.Compare) and len(e.ops) == 1 and isinstance(e.ops[0], (ast.Eq, ast.NotEq)):
         a, b = e.left, e.comparators[0]
         if _num(a) == 0:
             a, b = b, a
-        if _num(b) == 0 and _nz_polarity(a, base) == 1:
+        if _num(b) == 0 and _nz_polarity(a, base, cx, at, depth + 1) == 1:
             return 1 if isinstance(e.ops[0], ast.NotEq) else -1
     return 0
 
@@ -1964,21 +2065,7 @@ def fd_accum(repo, out):
     if dl is None:
         out.unsure(fn, sc, 'delta argument of _run_sub_point not found')
     else:
-        roots = set()
-        todo = [(dl, sn)]
-        seen = set()
-        while todo:
-            e, at = todo.pop()
-            for nm in astx.names(e):
-                if nm in roles:
-                    roots.add(nm)
-                    continue
-                for d in cx.rd.defs(at, nm):
-                    if d in seen or d not in body:
-                        continue
-                    seen.add(d)
-                    if d.kind == 'stmt' and isinstance(d.ast, ast.Assign):
-                        todo.append((d.ast.value, d))
+        roots = cx.roots(dl, sn, roles, region=body)
         if roots == {dx}:
             out.ok(fn, sc, f'perturbation passed to _run_sub_point derives from `{dx}` only')
         elif roots:
@@ -1987,19 +2074,19 @@ def fd_accum(repo, out):
         else:
             out.unsure(fn, sc, 'cannot relate the perturbation to the data triple')
     # 3. weight and accumulate
-    mults = [n for n in body if n.kind == 'stmt' and isinstance(n.ast, ast.AugAssign) and
-             isinstance(n.ast.target, ast.Name) and n.ast.target.id == R]
-    accs = [n for n in body if n.kind == 'stmt' and isinstance(n.ast, ast.AugAssign) and
-            isinstance(n.ast.target, ast.Name) and n.ast.target.id == p_res]
+    mults = [n for n in body if n.kind == 'stmt' and n is not sn and _aug(n.ast, R)]
+    accs = [n for n in body if n.kind == 'stmt' and _aug(n.ast, p_res)]
     problem = None
     for m in mults:
-        if not isinstance(m.ast.op, ast.Mult):
-            problem = (m.ast, f'`{R}` is combined with the coefficient by {type(m.ast.op).__name__}, not multiplied')
-        elif astx.names(m.ast.value) & roles != {cy}:
-            problem = (m.ast, f'the sub-point result is weighted by {sorted(astx.names(m.ast.value) & roles)}; it must '
+        op_, val_ = _aug(m.ast, R)
+        rts = cx.roots(val_, m, roles, region=body)
+        if op_ is not ast.Mult:
+            problem = (m.ast, f'`{R}` is combined with the coefficient by {op_.__name__}, not multiplied')
+        elif rts != {cy}:
+            problem = (m.ast, f'the sub-point result is weighted by {sorted(rts)}; it must '
                        f'be weighted by its own coefficient `{cy}`')
-    good_acc = [a for a in accs if isinstance(a.ast.op, ast.Add) and isinstance(a.ast.value, ast.Name) and
-                a.ast.value.id == R]
+    good_acc = [a for a in accs if _aug(a.ast, p_res)[0] is ast.Add and isinstance(_aug(a.ast, p_res)[1], ast.Name) and
+                _aug(a.ast, p_res)[1].id == R]
     if problem is None:
         if [a for a in accs if a not in good_acc]:
             a = [a for a in accs if a not in good_acc][0]
@@ -2018,7 +2105,8 @@ def fd_accum(repo, out):
     w = g.path(g.normal_succ(sn), [hdr], avoid=good_acc, labels=cfgm.noexc)
     twice = any(g.reach(g.normal_succ(a), avoid=[hdr], labels=cfgm.noexc) & set(good_acc) for a in good_acc)
     rebind = [n for n in g.nodes if n.kind == 'stmt' and isinstance(n.ast, ast.Assign) and
-              any(isinstance(t, ast.Name) and t.id == p_res for t in astx.assigned_targets(n.ast))]
+              any(isinstance(t, ast.Name) and t.id == p_res for t in astx.assigned_targets(n.ast)) and
+              not _aug(n.ast, p_res)]
     if w is not None or twice or rebind:
         why = 'is rebound instead of accumulated in place' if rebind else \
             ('is accumulated twice per sub-point' if twice else
@@ -2045,8 +2133,7 @@ def fd_accum(repo, out):
     if problem is None and not copies:
         problem = (zeros[0].ast if zeros else loop, f'the current point is never added: current_coeff*f(x) is missing '
                    f'from the difference', 'current-coeff')
-    scales = [n for n in g.nodes if n.kind == 'stmt' and n not in body and isinstance(n.ast, ast.AugAssign) and
-              isinstance(n.ast.target, ast.Name) and n.ast.target.id == p_res]
+    scales = [n for n in g.nodes if n.kind == 'stmt' and n not in body and _aug(n.ast, p_res)]
     if problem is None:
         for cnode in copies:
             v = cnode.ast.value
@@ -2072,8 +2159,8 @@ def fd_accum(repo, out):
                            f'perturbed points are read from _outputs (total) / _residuals (partial)', 'current-vec')
                 break
             w = g.path(g.normal_succ(cnode), [hdr], avoid=scales, labels=cfgm.noexc)
-            bad_scale = [s_ for s_ in scales if not isinstance(s_.ast.op, ast.Mult) or
-                         astx.names(s_.ast.value) & roles != {s2}]
+            bad_scale = [s_ for s_ in scales if _aug(s_.ast, p_res)[0] is not ast.Mult or
+                         cx.roots(_aug(s_.ast, p_res)[1], s_, roles) != {s2}]
             if w is not None or bad_scale:
                 problem = ((bad_scale[0].ast if bad_scale else cnode.ast), f'the copy of the current point must be '
                            f'multiplied by current_coeff (`{s2}`) before the loop', 'current-coeff')
@@ -2085,7 +2172,7 @@ def fd_accum(repo, out):
             if par is None:
                 problem = (st, f'`{p_res}` is zeroed unconditionally: the current-point term is lost', 'zero-init')
                 break
-            pol = _nz_polarity(par.test, s2)
+            pol = _nz_polarity(par.test, s2, cx, g.nodes_of(par)[0])
             if pol == 0:
                 # an `if rel_element:`-style outer test: look one level up is not needed, the zero store must be
                 # directly controlled by the nonzero test of current_coeff
@@ -2110,15 +2197,26 @@ def fd_accum(repo, out):
                 any(isinstance(w_, ast.Attribute) and w_.attr == 'size' for w_ in astx.walk(st.value)) and \
                 s2 in astx.names(st.value):
             flags.add(st.targets[0].id)
-    arms = [st for st in astx.walk_stmts(fn.node.body) if isinstance(st, ast.If) and isinstance(st.test, ast.Name)
-            and st.test.id in flags]
+    def _flag_pol(t):
+        if isinstance(t, ast.Name) and t.id in flags:
+            return 1
+        if isinstance(t, ast.UnaryOp) and isinstance(t.op, ast.Not) and isinstance(t.operand, ast.Name) and \
+                t.operand.id in flags:
+            return -1
+        return 0
+    arms = []       # (reporting node, [AST roots evaluated only when rel_element holds])
+    for w_ in astx.walk(fn.node):
+        if isinstance(w_, ast.If) and _flag_pol(w_.test):
+            arms.append((w_, w_.body if _flag_pol(w_.test) == 1 else w_.orelse))
+        elif isinstance(w_, ast.IfExp) and _flag_pol(w_.test):
+            arms.append((w_, [w_.body if _flag_pol(w_.test) == 1 else w_.orelse]))
     if not arms:
         out.unsure(fn, fn.node, 'no `if rel_element:` branch recognised')
         return
     problem = None
     n_idx = 0
-    for st in arms:
-        for sub in st.body:
+    for st, region in arms:
+        for sub in region:
             for w_ in astx.walk(sub):
                 if isinstance(w_, ast.Name) and w_.id in (s2, dx, cy) and isinstance(w_.ctx, ast.Load):
                     par = getattr(w_, '_parent', None)
@@ -2135,9 +2233,9 @@ def fd_accum(repo, out):
     if problem:
         out.bad(fn, problem[0], problem[1], key='rel-element-index')
     elif n_idx == 0:
-        out.unsure(fn, arms[0], 'rel_element branches do not index the data triple')
+        out.unsure(fn, arms[0][0], 'rel_element branches do not index the data triple')
     else:
-        out.ok(fn, arms[0], f'{n_idx} per-element reads under rel_element all use [{p_loc}]')
+        out.ok(fn, arms[0][0], f'{n_idx} per-element reads under rel_element all use [{p_loc}]')
 
 
 # =========================================================================== C12.colored-scatter
@@ -2199,13 +2297,21 @@ def colored_scatter(repo, out):
                 out.unsure(fn, sc_.ast, 'scatter source is not `res[mask]`')
                 problem = 'unsure'
                 break
-            if _dump(t.slice) != _dump(val.slice):
-                problem = (sc_.ast, f'rows `{astx.src(t.slice)}` of `{buf}` are filled from rows `{astx.src(val.slice)}` '
+            ts, tat = cx.resolve(t.slice, sc_)
+            vs, vat = cx.resolve(val.slice, sc_)
+            if _dump(ts) != _dump(vs) or any(cx.rd.defs(tat, nm_) != cx.rd.defs(vat, nm_)
+                                            for nm_ in astx.names(ts)):
+                problem = (sc_.ast, f'rows `{astx.src(ts)}` of `{buf}` are filled from rows `{astx.src(vs)}` '
                            f'of the result: source and target row masks differ')
                 break
-            m = t.slice
+            m = ts
             if not (isinstance(m, ast.Subscript) and isinstance(m.value, ast.Name)):
                 out.unsure(fn, sc_.ast, 'row mask is not `rows[i]`')
+                problem = 'unsure'
+                break
+            if tat is not sc_ and (tat not in body or any(cx.rd.defs(tat, nm_) != cx.rd.defs(sc_, nm_)
+                                                          for nm_ in astx.names(m))):
+                out.unsure(fn, sc_.ast, 'row mask temporary is not computed in the same iteration')
                 problem = 'unsure'
                 break
             if not (isinstance(m.slice, ast.Name) and m.slice.id == idx):
@@ -2215,11 +2321,15 @@ def colored_scatter(repo, out):
             if val.value.id == buf:
                 problem = (sc_.ast, 'the buffer is filled from itself')
                 break
-            # rows and columns come from the same group tuple
-            dj = cx.rd.defs(hdr, jc) - {hdr}
-            dn = cx.rd.defs(sc_, m.value.id)
-            if dj != dn or len(dj) != 1:
-                problem = (sc_.ast, f'`{m.value.id}` and `{jc}` are not unpacked from the same group tuple')
+            # rows and columns are elements of the same group tuple
+            sj = cx.slot_of(jc, hdr, exclude=[hdr])
+            sn_ = cx.slot_of(m.value.id, sc_)
+            if sj is None or sn_ is None:
+                out.unsure(fn, sc_.ast, f'cannot see which group tuple `{m.value.id}` and `{jc}` are taken from')
+                problem = 'unsure'
+                break
+            if sj[0] != sn_[0]:
+                problem = (sc_.ast, f'`{m.value.id}` and `{jc}` are not taken from the same group tuple')
                 break
             if g.path(g.normal_succ(sc_), zeros, avoid=[hdr, y], labels=cfgm.noexc) is not None:
                 problem = (sc_.ast, f'`{buf}` is zeroed after it has been filled')
@@ -2491,20 +2601,31 @@ def slots(repo, out):
         inner = [st for st in astx.walk_stmts(lp.body) if isinstance(st, ast.Assign) and len(st.targets) == 1 and
                  isinstance(st.targets[0], ast.Tuple) and isinstance(st.value, ast.Subscript) and
                  isinstance(st.value.value, ast.Name) and st.value.value.id == cc.params[2]]
-        if problem is None and len(inner) == 1:
-            it = [e.id if isinstance(e, ast.Name) else None for e in inner[0].targets[0].elts]
-            if len(it) != len(prod.elts):
-                problem = (inner[0], f'the group tuple has {len(prod.elts)} slots but {len(it)} are unpacked')
-            else:
-                for st in astx.walk_stmts(lp.body):
-                    if isinstance(st, ast.For) and isinstance(st.iter, ast.Call) and \
-                            astx.call_name(st.iter) == 'enumerate' and isinstance(st.iter.args[0], ast.Name) and \
-                            st.iter.args[0].id in it:
-                        cpos['cols'] = it.index(st.iter.args[0].id)
-                        for w_ in astx.walk(st):
-                            if isinstance(w_, ast.Subscript) and isinstance(w_.value, ast.Name) and \
-                                    w_.value.id in it and w_.value.id != st.iter.args[0].id:
-                                cpos['rows'] = it.index(w_.value.id)
+        if problem is None and len(inner) == 1 and len(inner[0].targets[0].elts) != len(prod.elts):
+            problem = (inner[0], f'the group tuple has {len(prod.elts)} slots but '
+                       f'{len(inner[0].targets[0].elts)} are unpacked')
+        if problem is None:
+            for st in astx.walk_stmts(lp.body):
+                if isinstance(st, ast.For) and isinstance(st.iter, ast.Call) and \
+                        astx.call_name(st.iter) == 'enumerate' and len(st.iter.args) == 1 and \
+                        isinstance(st.iter.args[0], ast.Name) and isinstance(st.target, ast.Tuple) and \
+                        len(st.target.elts) == 2 and isinstance(st.target.elts[0], ast.Name):
+                    jc_ = st.iter.args[0].id
+                    ix_ = st.target.elts[0].id
+                    hn = cc.g.nodes_of(st)[0]
+                    sj = cc.slot_of(jc_, hn, exclude=[hn])
+                    if sj is None or not sj[0][0] == 'src':
+                        continue
+                    cpos['cols'] = sj[1]
+                    for w_ in astx.walk(st):
+                        if isinstance(w_, ast.Subscript) and isinstance(w_.value, ast.Name) and \
+                                w_.value.id != jc_ and isinstance(w_.slice, ast.Name) and w_.slice.id == ix_:
+                            nn = cc.g.nodes_of(astx.stmt_of(w_))
+                            sn_ = cc.slot_of(w_.value.id, nn[0]) if nn else None
+                            if sn_ is not None and sn_[0] == sj[0]:
+                                cpos['rows'] = sn_[1]
+            if any(v >= len(prod.elts) for v in cpos.values()):
+                problem = (lp, f'slot {max(cpos.values())} is read from a group tuple that has {len(prod.elts)} slots')
         if problem is None:
             if len(cpos) != 4:
                 out.unsure(fc, lp, f'consumer roles not recognised ({sorted(cpos)})')
@@ -3157,6 +3278,11 @@ selftest(
     Mutant('accum-zero-test-inverted', FD, 'elif np.any(current_coeff != 0.0):', 'elif np.any(current_coeff == 0.0):', 'C12.fd-accum'),
     Mutant('accum-perturb-by-coeff', FD, 'results = self._run_sub_point(system, idx_info, local_delta, total)',
            'results = self._run_sub_point(system, idx_info, coeff, total)', 'C12.fd-accum'),
+    Mutant('accum-weight-temporary-from-delta', FD, '            else:\n                results *= coeff\n', '            else:\n                w = delta\n                results *= w\n', 'C12.fd-accum'),
+    Mutant('accum-current-temporary-from-coeffs', FD, '            results_array *= current_coeff\n        else:', '            cur = coeffs[0]\n            results_array *= cur\n        else:', 'C12.fd-accum'),
+    Mutant('accum-flag-inverted', FD, 'elif np.any(current_coeff != 0.0):', 'elif not np.any(current_coeff != 0.0):', 'C12.fd-accum'),
+    Mutant('slots-colored-indexed-swapped', AS, '                _, jcols, _, nzrows, _ = colored_approx_groups[i]\n',
+           '                grp = colored_approx_groups[i]\n                jcols = grp[3]\n                nzrows = grp[1]\n', 'C12.slots'),
     # ---- colored-scatter
     Mutant('scatter-not-zeroed', AS, '                    scratch[:] = 0.0\n', '', 'C12.colored-scatter'),
     Mutant('scatter-source-mask-zero', AS, 'scratch[nzrows[i]] = res[nzrows[i]]', 'scratch[nzrows[i]] = res[nzrows[0]]', 'C12.colored-scatter'),
@@ -3165,6 +3291,10 @@ selftest(
            '                    scratch[nzrows[i]] = res[nzrows[i]]\n                    scratch[:] = 0.0\n', 'C12.colored-scatter'),
     Mutant('scatter-zero-hoisted', AS, '                for i, col in enumerate(jcols):\n                    scratch[:] = 0.0\n',
            '                scratch[:] = 0.0\n                for i, col in enumerate(jcols):\n', 'C12.colored-scatter'),
+    Mutant('scatter-indexed-wrong-slot', AS, '                _, jcols, _, nzrows, _ = colored_approx_groups[i]\n',
+           '                grp = colored_approx_groups[i]\n                jcols = grp[1]\n                nzrows = colored_approx_groups[0][3]\n', 'C12.colored-scatter'),
+    Mutant('scatter-temporary-wrong-index', AS, '                    scratch[nzrows[i]] = res[nzrows[i]]\n',
+           '                    rows = nzrows[0]\n                    scratch[rows] = res[rows]\n', 'C12.colored-scatter'),
     # ---- pipeline
     Mutant('pipeline-colored-no-transform', AS, '                if par_fd_w_serial_model or not use_parallel_fd:\n                    result = self._transform_result(result)\n',
            '                if par_fd_w_serial_model or not use_parallel_fd:\n', 'C12.pipeline'),
@@ -3216,6 +3346,41 @@ selftest(
          '                data = self._get_approx_data(system, wrt, meta)\n                break\n',
          '        for wrt in self._wrt_meta:\n            if wrt_matches is None or wrt in wrt_matches:\n'
          '                data = self._get_approx_data(system, wrt, self._wrt_meta[wrt])\n                break\n'),
+    Twin('twin-accum-merged-init-and-ifexp-weight', FD,
+         '        if rel_element:\n            if current_coeff[loc_idx]:\n                current_vec = system._outputs if total else system._residuals\n'
+         '                # copy data from outputs (if doing total derivs) or residuals (if doing partials)\n'
+         '                results_array[:] = current_vec.asarray()\n                results_array *= current_coeff[loc_idx]\n\n'
+         '            else:\n                results_array[:] = 0.\n\n        elif np.any(current_coeff != 0.0):\n'
+         '            current_vec = system._outputs if total else system._residuals\n'
+         '            # copy data from outputs (if doing total derivs) or residuals (if doing partials)\n'
+         '            results_array[:] = current_vec.asarray()\n            results_array *= current_coeff\n',
+         '        if rel_element:\n            curr = current_coeff[loc_idx]\n            use_current = bool(curr)\n        else:\n'
+         '            curr = current_coeff\n            use_current = np.any(current_coeff != 0.0)\n\n        if use_current:\n'
+         '            current_vec = system._outputs if total else system._residuals\n'
+         '            results_array[:] = current_vec.asarray()\n            results_array *= curr\n',
+         also=[(FD, '            if rel_element:\n                results *= coeff[loc_idx]\n            else:\n                results *= coeff\n',
+                '            results *= coeff[loc_idx] if rel_element else coeff\n')]),
+    Twin('twin-accum-plain-assign-forms', FD, '            results_array += results\n', '            results_array = results_array + results\n',
+         also=[(FD, '            else:\n                results *= coeff\n', '            else:\n                results = coeff * results\n')]),
+    Twin('twin-accum-weight-temporary', FD, '            else:\n                results *= coeff\n', '            else:\n                w = coeff\n                results *= w\n'),
+    Twin('twin-fd-perturb-continue-guard', FD, '            if vec is not None and idxs is not None:\n                vec.iadd(delta, idxs)\n\n        if total:\n            system.run_solve_nonlinear()\n            self',
+         '            if vec is None or idxs is None:\n                continue\n            vec.iadd(delta, idxs)\n\n        if total:\n            system.run_solve_nonlinear()\n            self'),
+    Twin('twin-scatter-indexing-and-temporaries', AS,
+         '                i, res = tup\n\n                _, jcols, _, nzrows, _ = colored_approx_groups[i]\n\n                for i, col in enumerate(jcols):\n'
+         '                    scratch[:] = 0.0\n                    scratch[nzrows[i]] = res[nzrows[i]]\n',
+         '                igroup, res = tup\n\n                group = colored_approx_groups[igroup]\n                group_cols = group[1]\n'
+         '                group_nzrows = group[3]\n\n                for icol, col in enumerate(group_cols):\n                    col_nzrows = group_nzrows[icol]\n'
+         '                    scratch[:] = 0.0\n                    scratch[col_nzrows] = res[col_nzrows]\n',
+         also=[(AS, 'for data, jcols, vec_ind_list, nzrows, seed_vars, in colored_approx_groups:', 'for data, _, vec_ind_list, _, seed_vars, in colored_approx_groups:')]),
+    Twin('twin-colored-early-raise', AS,
+         '                if par_fd_w_serial_model or not use_parallel_fd:\n                    result = self._transform_result(result)\n\n'
+         '                    if mult != 1.0:\n                        result *= mult\n\n                    if total:\n'
+         '                        result = self._get_total_result(result, tot_result)\n\n                    tosend = (fd_count, result)\n\n'
+         '                else:  # parallel model (some vars are remote)\n                    raise NotImplementedError(',
+         '                if not (par_fd_w_serial_model or not use_parallel_fd):\n                    raise NotImplementedError("x")\n'
+         '                result = self._transform_result(result)\n\n                if mult != 1.0:\n                    result *= mult\n\n'
+         '                if total:\n                    result = self._get_total_result(result, tot_result)\n\n                tosend = (fd_count, result)\n\n'
+         '                if False:\n                    raise NotImplementedError('),
     Twin('twin-fd-zero-literal', FD, '        else:\n            results_array[:] = 0.\n\n        # Run', '        else:\n            results_array[:] = 0.0\n\n        # Run'),
     Twin('twin-cs-loop-variable', CS, 'for tup in self._compute_approx_col_iter(system, under_cs=True):\n                yield tup',
          'for item in self._compute_approx_col_iter(system, under_cs=True):\n                yield item'),
